@@ -402,7 +402,9 @@ impl QosPolicies {
     //
     // See Ord implementation on Liveliness.
     if let (Some(off), Some(req)) = (self.liveliness, other.liveliness) {
-      if off < req {
+      // Ord on Liveliness is lexicographic (kind first), so a longer offered
+      // lease has to be checked separately.
+      if off < req || off.duration() > req.duration() {
         return Some(QosPolicyId::Liveliness);
       }
     }
@@ -804,7 +806,7 @@ pub mod policy {
     fn cmp(&self, other: &Self) -> Ordering {
       // Manual liveliness is greater than automatic, but
       // duration compares in reverse
-      other
+      self
         .kind_num()
         .cmp(&other.kind_num())
         .then_with(|| self.duration().cmp(&other.duration()).reverse())
